@@ -32,7 +32,7 @@ Accepted subset (anything else raises TranslateError with file:line):
 
   statements  docstrings; pass; print(...) and print_statistics(...) of pure arguments (no
               effect on the result: dropped); x = e; a, b = e; x += e; d[k] = e and
-              d[k] += n on a dict / Counter held in a local, a parameter updated in place or
+              d[k] += n (also spelled d[k] = d[k] + n) on a dict / Counter held in a local, a parameter updated in place or
               an attribute of the parser object the function owns (self.count_.. /
               pcfg_parser.count_base_structures); d.clear(); l.append(e) and l[i] = e on a
               local list; if / elif / else (`if e is None` / `is not None` is a match on the
@@ -1028,6 +1028,22 @@ class FnTr:
             self.mutable(s, d, env)
             td = env.types[d]
             cd = env.names[d]
+            # counter[k] = counter[k] + n  (also n + counter[k]) on a Counter of ints: the spelling of counter[k] += n
+            # (a Counter gives 0 for a missing key; the key expression is pure and evaluated twice)
+            if td == ICNT and isinstance(v, ast.BinOp) and isinstance(v.op, ast.Add):
+                same = [x for x in (v.left, v.right) if isinstance(x, ast.Subscript)
+                        and ast.dump(x.value) == ast.dump(t.value).replace("Store()", "Load()")
+                        and ast.dump(x.slice) == ast.dump(t.slice) and ast.dump(x).count("Call(") == 0]
+                if same:
+                    other = v.right if same[0] is v.left else v.left
+                    key, tk = self.expr(t.slice, env)
+                    if tk == OPT(STR):
+                        key, tk = "key_of_opt %s" % _paren(key), STR
+                    n, tn = self.expr(other, env)
+                    if tk != STR or tn != INT:
+                        self.fail(s, "counter[%s] = counter[..] + %s" % (type_name(tk), type_name(tn)))
+                    return self.seq(ind, "let %s := cnt_add %s %s %s in" % (cd, _paren(key), _paren(n), cd),
+                                    lambda: self.block(rest, env, k, ind), s)
             if isinstance(td, tuple) and td[0] == "dict":
                 key, tk = self.expr(t.slice, env)
                 val, tval = self.expr(v, env)
